@@ -890,6 +890,16 @@ func generate(rng *rand.Rand, g genOpts) []*site {
 							}
 						}
 					}
+					// F02-12 (rest): typed constants under an interface declaration / result, always present, with the assigned
+					// neighbour that is folded
+					if (o.Name == "mul" || o.Name == "quo") && k.Under == "" && (ctx == "ifacevar" || ctx == "ifaceret" || ctx == "ifaceret2" || ctx == "iface") {
+						switch k.Class {
+						case "float":
+							add(site{Op: o.Name, K: k.Name, K2: k.Name, Form: "cc", CKind: "typed", Ctx: ctx, CL: "0.0", CR: "-1.0"})
+						case "complex":
+							add(site{Op: o.Name, K: k.Name, K2: k.Name, Form: "cc", CKind: "typed", Ctx: ctx, CL: "0", CR: "(-1.5 - 0.5i)"})
+						}
+					}
 					// both operands constant: folded at compile time (typed constants only; untyped×untyped is C03's subject)
 					for i := 0; i < len(consts); i++ {
 						if g.constFrac < 1 && rng.Float64() >= g.constFrac*4/float64(len(consts)) {
